@@ -11,7 +11,7 @@ import mapper_ref as R
 import c01
 
 TRUSTED = c01.TRUSTED[:3] + [
-    "Coq: the energy clause (C19_energy_of_every_mapping, C19_space_unchanged, C19_energy_scale_partial). The throughput clause and the n_instances clause are checked on the real mapper only",
+    "Coq: the energy clause (C19_energy_of_every_mapping, C19_space_unchanged, C19_energy_scale_partial) and the throughput clause (C19_latency_of_every_mapping, C19_throughput_scale). The n_instances clause is checked on the real mapper only",
     "scale factors include 2^-20 ... 2^40 and 1e20 so that values cross the float32 range and the 1e30 / 1e308 sentinels used inside the mapper",
 ]
 KS = [Fraction(1, 2 ** 20), Fraction(1, 8), Fraction(3), Fraction(15, 2), Fraction(2 ** 10), Fraction(2 ** 40), Fraction(10 ** 20)]
